@@ -77,4 +77,6 @@ def validate_trace(ctx, module, trace_path, subst, label, sig_prefix):
     ctx.transitions += r.generated
     ctx.traces += n
     ctx.evaluations += n
+    with open(trace_path) as f:   # non-trivial by the stated rule: the recorded call changed the receiver
+        ctx.nontrivial += sum(1 for line in f if '"nil":false' in line)
     return n
